@@ -262,11 +262,14 @@ func (m *Machine) chanSend(c *chanV, v value) {
 		if c.closed {
 			m.targetPanic("send on closed channel")
 		}
+		m.hbRelease(c, "send")
+		m.hbAcquire(c, "recv")
 		c.buf = append(c.buf, v)
 		return
 	}
 	// unbuffered: park the value; complete when a receiver takes it
 	req := &sendReq{v: v, g: m.cur}
+	m.hbRelease(c, "send")
 	c.sendq = append(c.sendq, req)
 	m.block(func() bool { return req.taken || c.closed }, fmt.Sprintf("chan send (chan#%d unbuffered)", c.id))
 	if !req.taken {
@@ -274,6 +277,7 @@ func (m *Machine) chanSend(c *chanV, v value) {
 		m.targetPanic("send on closed channel")
 	}
 	c.removeReq(req)
+	m.hbAcquire(c, "recv")
 }
 
 func (c *chanV) removeReq(r *sendReq) {
@@ -313,7 +317,10 @@ func (m *Machine) chanRecv(c *chanV) (value, bool) {
 	c.recvWaiting++
 	m.block(func() bool { return c.canRecv() }, fmt.Sprintf("chan receive (chan#%d)", c.id))
 	c.recvWaiting--
-	return c.takeRecv()
+	v, ok := c.takeRecv()
+	m.hbAcquire(c, "send")
+	m.hbRelease(c, "recv")
+	return v, ok
 }
 
 func (m *Machine) maybeFire(c *chanV) {
@@ -331,6 +338,7 @@ func (m *Machine) chanClose(c *chanV) {
 	if c.closed {
 		m.targetPanic("close of closed channel")
 	}
+	m.hbRelease(c, "send")
 	c.closed = true
 }
 
@@ -388,6 +396,7 @@ func (m *Machine) doSelect(cases []selCase, blocking bool) (int, value, bool) {
 		if sc.c.closed {
 			m.targetPanic("send on closed channel")
 		}
+		m.hbRelease(sc.c, "send")
 		if sc.c.cap > 0 {
 			sc.c.buf = append(sc.c.buf, sc.v)
 		} else {
@@ -400,9 +409,12 @@ func (m *Machine) doSelect(cases []selCase, blocking bool) (int, value, bool) {
 				m.targetPanic("send on closed channel")
 			}
 		}
+		m.hbAcquire(sc.c, "recv")
 		return pick, nil, false
 	}
 	v, ok := sc.c.takeRecv()
+	m.hbAcquire(sc.c, "send")
+	m.hbRelease(sc.c, "recv")
 	return pick, v, ok
 }
 
@@ -425,6 +437,8 @@ func (m *Machine) mutexLock(p *value) {
 	s.wwait--
 	s.locked = true
 	s.owner = m.cur
+	m.hbAcquire(s, "w")
+	m.hbAcquire(s, "r")
 }
 
 func (m *Machine) mutexTryLock(p *value) bool {
@@ -432,6 +446,8 @@ func (m *Machine) mutexTryLock(p *value) bool {
 	if !s.locked && s.readers == 0 {
 		s.locked = true
 		s.owner = m.cur
+		m.hbAcquire(s, "w")
+		m.hbAcquire(s, "r")
 		return true
 	}
 	return false
@@ -444,6 +460,7 @@ func (m *Machine) mutexUnlock(p *value) {
 	}
 	s.locked = false
 	s.owner = nil
+	m.hbRelease(s, "w")
 	m.preemptPoint()
 }
 
@@ -453,6 +470,7 @@ func (m *Machine) mutexRLock(p *value) {
 	// like Go's RWMutex: new readers wait while a writer holds the lock or is waiting for it
 	m.block(func() bool { return !s.locked && s.wwait == 0 }, "RWMutex.RLock")
 	s.readers++
+	m.hbAcquire(s, "w")
 }
 
 func (m *Machine) mutexRUnlock(p *value) {
@@ -461,6 +479,7 @@ func (m *Machine) mutexRUnlock(p *value) {
 		m.fatal("sync: RUnlock of unlocked RWMutex")
 	}
 	s.readers--
+	m.hbRelease(s, "r")
 	m.preemptPoint()
 }
 
